@@ -31,14 +31,19 @@ def determinism(out, rng, tier, cases, problems):
     pool = [c for c in cases if c.get("layout", 0) == 0 and c.get("nesting", 0) == 0][:2000]
     rng.shuffle(pool)
     sample = pool[:40 if tier == "quick" else 400]
+    # conditions that name _KWARGS are always in the sample (the dictionary itself is shown then)
+    sample += [c for c in pool[len(sample):] if "_KWARGS" in c["cond_params"] and "_ARGS" not in c["cond_params"]][:6]
     seeds = ["0", "1", "7", "12345"] if tier == "quick" else [str(s) for s in (0, 1, 2, 3, 7, 11, 99, 12345, 4294967295, 31337, 5, 6)]
     variants = []   # (case index, variant case)
     for i, c in enumerate(sample):
         names = list(c["func_params"])
         orders = [None] + [list(p) for p in itertools.islice(itertools.permutations(names), 24)] if len(names) <= 4 else \
                  [None, names, list(reversed(names))]
-        if "_ARGS" in c["cond_params"] or "_KWARGS" in c["cond_params"]:
+        if "_ARGS" in c["cond_params"]:
             orders = [c.get("kw_order")]          # the condition looks at how the arguments were passed
+        elif "_KWARGS" in c["cond_params"]:
+            # ... by keyword: the same keyword arguments in every order (a dictionary with the same items)
+            orders = [o for o in orders if o is not None] if c.get("kw_order") is not None else [None]
         for o in orders:
             d = json.loads(json.dumps(c))
             d["kw_order"] = o
